@@ -696,6 +696,9 @@ impl Sim {
                         props.push("C09");
                     } else if *reason == "ask_pending" {
                         props.push("C08");
+                    } else if *reason == "quote_mismatch" {
+                        // settling an ask in a denomination it did not name pays nobody their due
+                        props.push("C02");
                     } else if *reason == "id_in_use" {
                         props.push("C11");
                     } else if *reason == "bid_fee_unpayable" {
@@ -755,6 +758,13 @@ impl Sim {
                             };
                             if r.text().contains("Total (price * size) must be an integer") {
                                 props.push("C13");
+                            }
+                            if matches!(kind, "cancel_ask" | "expire_ask") {
+                                // "a pending ask can be cancelled, expired or rejected" (C08)
+                                let (an, _) = req.named();
+                                if an.iter().any(|i| book_pre.asks.get(i).map(|a| a.class != AskClass::Plain).unwrap_or(false)) {
+                                    props.push("C08");
+                                }
                             }
                             if kind == "create_bid" && r.text().contains("Fee size") {
                                 // a correctly computed fee was refused: the fee demanded at entry is wrong
